@@ -1,11 +1,13 @@
 #!/bin/bash
-# sweep.sh [tier] : every registered check once, sequentially, evidence removed first; summary at the end
+# sweep.sh [tier] [from-id] : every registered check once, sequentially, evidence removed first; summary at the end
 cd "$(dirname "$0")"
 TIER="${1:-quick}"
+FROM="${2:-}"
 export VERIF_SEED=1
 ids=$(python3 -c "import json;print(' '.join(c['property_id'] for c in json.load(open('MANIFEST.json'))['checks']))")
 mkdir -p /tmp/sweep
 for id in $ids; do
+  if [ -n "$FROM" ] && [[ "$id" < "$FROM" ]]; then continue; fi
   rm -f evidence/$id.json
   s=$(date +%s)
   ./check $id --tier $TIER > /tmp/sweep/$id.$TIER.log 2>&1
